@@ -43,6 +43,8 @@ CLAIMED = {
          "All abstract strings up to length 3 (thorough 4) over an 18-symbol alphabet in both modes (TLC, exhaustive) and longer simulated ones, each of the 682 table commands in 6 (thorough 40) context templates, probe strings in every component kind with default and overridden text_convert, per-cell text_convert: the real rendering is read back and TLC replays the documented scanner against the reader's events."),
  "C16": ("5 C16", "TLC model checking of spec/Figure.tla + TLC trace validation (spec/FigTrace.tla) of figure documents read back (picture type, pixel and display dimensions, hex payload decoded)",
          "TLC generates figure documents (1..6 figures, width/height lists of any length, caption presence and placement); image files are random bytes with valid PNG/JPEG headers of random dimensions or EMF blobs, with payload sizes around the hex line boundary; TLC checks one picture per page in order, type, pixel size from the image header, display size = inches x 1440 with positional reuse of the last value, byte-exact payload (<=512 bytes byte by byte, larger by length+SHA-1) and captions per placement option."),
+ "C19": ("5 C19", "TLC enumeration of the decision table (spec/Validate.tla) with one implementation test per row + TLC trace validation (spec/ValTrace.tla) of the exception class of every construction attempt",
+         "Every row class x validated field x shape (scalar, vector, matrix) x position of the bad value is enumerated by TLC (693 rows) and concretised with 3 (thorough 25) random invalid values mixed with valid ones; TLC checks that each attempt raised ValueError (FileNotFoundError for a missing figure) and that the control construction with the valid value is accepted."),
 }
 PENDING = {}
 
